@@ -269,7 +269,7 @@ func (x *Exec) hookEvent(st *State, fr *Frame, kind, key string, args []Val, ret
 		for _, c := range h.Asserts {
 			g, err := env.EvalBool(c.Expr)
 			if err != nil {
-				x.errorf("%s:%d: %v", c.File, c.Line, err)
+				st.unbound("mon", c.Label, propsOr(c.Props, x.safetyProps()), pos, c.Expr, err)
 				continue
 			}
 			st.oblige("mon", c.Label, g, pos, c.Expr, propsOr(c.Props, x.safetyProps()))
@@ -898,7 +898,7 @@ func (x *Exec) atReturn(st *State, fr *Frame, rv Val, pos token.Pos) {
 	for _, c := range fc.Ensures {
 		g, err := env.EvalBool(c.Expr)
 		if err != nil {
-			x.errorf("%s:%d: %v", c.File, c.Line, err)
+			st.unbound("post", c.Label, propsOr(c.Props, fc.Props), pos, c.Expr, err)
 			continue
 		}
 		st.oblige("post", c.Label, g, pos, c.Expr, propsOr(c.Props, fc.Props))
